@@ -340,16 +340,37 @@ def r_build(ctx):
               'a success path of `%s` returns Ok without writing the metadata (or writes it with a metric name other than D::name())' % be.path)
 
 
-def r_clear(ctx):
+def clear_rule(ctx, rule):
+    """clear removes every key of the index (cursor over Prefix::all, or one inclusive whole-index range)"""
     F = ctx.F
     f = F.one('writer::Writer::<D>::clear')
-    if ctx.need(f is not None, 'R-CLEAR', 'Writer::clear'):
-        loops = scan_loops(F, f, 'p-all')
-        if ctx.need(len(loops) >= 1, 'R-CLEAR', 'cursor loop over Prefix::all(self.index) in Writer::clear', f.loc()):
-            for rc, ki, nx, dels in loops:
-                okk = bool(dels) and any(loop_every_iteration(f, nx, d.bb) for d in dels)
-                ctx.check(okk, 'R-CLEAR', 'clear/del-every', nx.loc(), 'clear deletes every key of the index prefix',
-                          'Writer::clear leaves keys of the index behind (metadata or marks could survive and a stale index be served)')
+    if not ctx.need(f is not None, rule, 'Writer::clear'):
+        return
+    loops = scan_loops(F, f, 'p-all')
+    from rules import KEY_CTORS
+    good = False
+    why = ''
+    for rc, ki, nx, dels in loops:
+        if dels and any(loop_every_iteration(f, nx, d.bb) for d in dels):
+            good = True
+            why = 'cursor over Prefix::all(self.index) deleting every entry'
+    for (_g, c, op, w, k) in db_ops(F, [f]):
+        if op == 'delete_range':
+            t = c.arg_term(k)
+            ctors = [s for s in walk(t) if s[0] == 'call' and s[1] in KEY_CTORS]
+            incl = any((s[0] in ('call', 'agg')) and 'RangeInclusive' in s[1] for s in walk(t))
+            if len(ctors) == 2 and KEY_CTORS[ctors[0][1]] == 'metadata' and KEY_CTORS[ctors[1][1]] == 'item' and incl \
+                    and same(ctors[0][2][0], ctors[1][2][0]) and strip(ctors[1][2][1])[0] == 'const' and strip(ctors[1][2][1])[2] == 0xFFFFFFFF \
+                    and paths.must_pass(f, 0, [b for b, kk, tt in paths.ret_assigns(f) if kk in ('ok', 'call')], [c.bb]):
+                good = True
+                why = 'delete_range(Key::metadata(idx) ..= Key::item(idx, u32::MAX))'
+    ctx.check(good, rule, 'clear/removes-everything', f.loc(), why,
+              'Writer::clear does not remove every key of its index (an item, e.g. id u32::MAX, or the metadata can survive a clear)')
+
+
+def r_clear(ctx):
+    F = ctx.F
+    clear_rule(ctx, 'R-CLEAR')
     # the metric-change path removes the metadata of its index
     g = F.one('writer::Writer::<D>::prepare_changing_distance')
     if ctx.need(g is not None, 'R-CHANGE', 'Writer::prepare_changing_distance'):
